@@ -60,6 +60,9 @@ CLAIMED = {
  "C18": dict(cat="proof", tech="Coq object-layout function (Itanium ABI allocation of data members with [[no_unique_address]]) over transcribed class models; closed-form size theorems for all index types / ranks / patterns; sizeof / is_empty / is_trivially_copyable correspondence on generated instantiations with g++ and clang++, attribute and emulation builds",
    text="Theorems C18_extents (sizeof = rank_dynamic x sizeof(index_type), empty class when none), C18_left_right_add_nothing, C18_stride_adds_rank, C18_padded_at_most_one, C18_mdspan (handle + data of the non-empty mapping and accessor, for any mapping/accessor shapes), C18_mdspan_pointer_sized, C18_mdspan_left_right_stride, trivially-copyable flags. Correspondence: for generated instantiations (8 index types x 5 layouts x ranks 0..6 x static/dynamic/mixed/zero patterns x padding values x 4 accessor kinds) sizeof and is_empty of extents, mapping and mdspan are compared with the layout function in the attribute builds, is_trivially_copyable in all builds including the forced emulation.",
    ref="4/C18", note=NOTE_COMMON + " Partial in one respect: the ABI model is validated by the comparison with the two compilers, not derived from the ABI document."),
+ "C16": dict(cat="proof", tech="Coq rule model: decision functions transcribed from the headers' constraint / explicit(...) expressions over type descriptors; theorems relate them to the specification's rules and prove that implicit conversions are total and value-preserving; compile-time correspondence of std::is_constructible / is_convertible / invocability over generated type pairs and argument lists with g++ and clang++ in C++17/20/23",
+   text="Theorems C16_extents_rules, C16_implicit_extents_total (an implicit extents conversion has no precondition: every source value satisfies it), C16_dyn_to_static_has_precondition (converse for dynamic->static), C16_left_right_only_rank_le_1 / _exists_, C16_stride_to_left_right_explicit, C16_same_layout_follows_extents, C16_implicit_mapping_total (implicit left->left / right->right conversion yields the same valid mapping), C16_default_accessor, C16_mdspan, C16_extents_pack, C16_call, C16_mdspan_pack. Correspondence: ~2200 (thorough 20000) generated queries - ordered pairs of extents / mapping (5 layouts, padding values) / accessor / mdspan types and argument lists (all integer widths, double, classes with noexcept / throwing / no conversion; counts rank, rank_dynamic, off by one) for every constructor and call operator - is_constructible / is_convertible / invocability compared with the rule model (C++17: conditional explicit off).",
+   ref="4/C16", note=NOTE_COMMON + " Partial in one respect: that the compilers implement overload resolution and the traits is trusted; hard-error mandates (static_assert) are not queried; the explicitness of padded-layout conversions is modelled as implemented."),
 }
 PENDING_REASON = "check under construction in this session (Coq theorems and correspondence driver not yet committed); not claimed until both exist"
 
